@@ -77,6 +77,27 @@ theorem inAnotherChunk_range_effect (cfg : Cfg) (s s' : State) (L : Layout) (h :
     (hr : inAnotherChunk cfg .range s L h = .ok (s', r)) : PrepareEffect cfg i s s' :=
   prepareEffect_of_keeps (inAnotherChunk_keeps (by decide) ⟨hcur, hget⟩ hr)
 
+/-- a prepare that is REFUSED (allocation failure, capacity overflow) leaves the current chunk where it
+    was (fix c107ca6): together with `PrepareEffect.upto` the whole bump position is then unchanged -/
+theorem allocGeneric_range_error_cur (cfg : Cfg) (s s' : State) (L : Layout) (h hs : Hints) (i : Nat) (c : Chunk)
+    (e : AErr) (hcur : s.cur = .chunk i) (hget : s.chunks[i]? = some c)
+    (hr : allocGeneric cfg .range s L h hs = .ok (s', .error e)) :
+    s'.cur = s.cur ∧ s'.chunks[i]? = s.chunks[i]? := by
+  have hk := allocGeneric_keeps (by decide) ⟨hcur, hget⟩ hr
+  exact ⟨(allocGeneric_error_cur (by decide) ⟨hcur, hget⟩ hr).trans hcur.symm, hk.upto i (Nat.le_refl i)⟩
+
+theorem allocGeneric_prepare_error_cur (cfg : Cfg) (s s' : State) (L : Layout) (h hs : Hints) (i : Nat) (c : Chunk)
+    (e : AErr) (hcur : s.cur = .chunk i) (hget : s.chunks[i]? = some c)
+    (hr : allocGeneric cfg .prepare s L h hs = .ok (s', .error e)) :
+    s'.cur = s.cur ∧ s'.chunks[i]? = s.chunks[i]? := by
+  have hk := allocGeneric_keeps (by decide) ⟨hcur, hget⟩ hr
+  exact ⟨(allocGeneric_error_cur (by decide) ⟨hcur, hget⟩ hr).trans hcur.symm, hk.upto i (Nat.le_refl i)⟩
+
+theorem inAnotherChunk_range_error_cur (cfg : Cfg) (s s' : State) (L : Layout) (h : Hints) (i : Nat) (c : Chunk)
+    (e : AErr) (hcur : s.cur = .chunk i) (hget : s.chunks[i]? = some c)
+    (hr : inAnotherChunk cfg .range s L h = .ok (s', .error e)) : s'.cur = s.cur :=
+  ((inAnotherChunk_keeps' (by decide) ⟨hcur, hget⟩ hr).2 e rfl).trans hcur.symm
+
 /-! ## Part 2: the life of a collection in a history -/
 
 /-- creating or growing the collection -/
@@ -115,6 +136,38 @@ theorem step_prepareSlice_effect (cfg : Cfg) (g g' : GState) (esize ealign minCa
             simp only [R_ok_bind, R_pure_eq, Except.ok.injEq, Prod.mk.injEq] at hr
             obtain ⟨rfl, rfl⟩ := hr
             exact ⟨⟨he.upto, he.later, he.cur, he.live, he.minAlign, he.frames⟩, rfl⟩
+
+/-- a collection whose creation / growth is refused leaves the bump position exactly where it was -/
+theorem step_prepareSlice_error_cur (cfg : Cfg) (g g' : GState) (esize ealign minCap : Nat) (rev : Bool) (e : AErr)
+    (i : Nat) (c : Chunk) (hcur : g.s.cur = .chunk i) (hget : g.s.chunks[i]? = some c)
+    (hr : stepCore cfg g (.prepareSlice esize ealign minCap rev) = .ok (g', .err e)) :
+    g'.s.cur = g.s.cur ∧ g'.s.chunks[i]? = g.s.chunks[i]? := by
+  have hc : CurChunk g.s i c := ⟨hcur, hget⟩
+  rw [stepCore] at hr
+  split at hr
+  · cases hr
+  · simp only at hr
+    split at hr
+    · simp only [R_pure_eq, Except.ok.injEq, Prod.mk.injEq] at hr
+      obtain ⟨rfl, _⟩ := hr
+      exact ⟨rfl, rfl⟩
+    · split at hr
+      · simp only [R_pure_eq, Except.ok.injEq, Prod.mk.injEq] at hr
+        obtain ⟨rfl, _⟩ := hr
+        exact ⟨rfl, rfl⟩
+      · generalize hag : allocGeneric cfg .range g.s _ Hints.array Hints.array = x at hr
+        cases x with
+        | error e => cases hr
+        | ok sr =>
+          obtain ⟨s1, r⟩ := sr
+          cases r with
+          | error e1 =>
+            simp only [R_ok_bind, R_pure_eq, Except.ok.injEq, Prod.mk.injEq] at hr
+            obtain ⟨rfl, _⟩ := hr
+            exact allocGeneric_range_error_cur cfg g.s s1 _ _ _ i c e1 hcur hget hag
+          | ok ab =>
+            obtain ⟨a, b⟩ := ab
+            simp only [R_ok_bind, R_pure_eq, Except.ok.injEq, Prod.mk.injEq, reduceCtorEq, and_false] at hr
 
 /-- `prepare_allocation` of the untyped interface -/
 theorem step_prepare_effect (cfg : Cfg) (g g' : GState) (L : Layout) (o : Out)
